@@ -23,6 +23,7 @@ import (
 	"github.com/LiskHQ/lisk-engine/pkg/db"
 	"github.com/LiskHQ/lisk-engine/pkg/framework"
 	"github.com/LiskHQ/lisk-engine/pkg/framework/blueprint"
+	"github.com/LiskHQ/lisk-engine/pkg/generator"
 	"github.com/LiskHQ/lisk-engine/pkg/labi"
 	"github.com/LiskHQ/lisk-engine/pkg/log"
 	"github.com/LiskHQ/lisk-engine/pkg/statemachine"
@@ -109,8 +110,9 @@ type obsRec struct {
 
 type mod struct {
 	blueprint.Module
-	cur *txScript
-	obs []obsRec
+	cur     *txScript
+	scripts map[int]*txScript // by Transaction.Params[0] (block generation executes in its own order)
+	obs     []obsRec
 }
 
 func (m *mod) Name() string { return "m" }
@@ -119,6 +121,15 @@ func (m *mod) GetCommand(name string) (statemachine.Command, bool) {
 		return nil, false
 	}
 	return &cmd{m: m}, true
+}
+
+func (m *mod) script(ctx *statemachine.TransactionExecuteContext) *txScript {
+	if p := ctx.Transaction().Params(); len(p) > 0 && m.scripts != nil {
+		if s, ok := m.scripts[int(p[0])]; ok {
+			return s
+		}
+	}
+	return m.cur
 }
 
 func (m *mod) runScript(ctx *statemachine.TransactionExecuteContext, s script) error {
@@ -181,10 +192,10 @@ func (m *mod) runScript(ctx *statemachine.TransactionExecuteContext, s script) e
 }
 
 func (m *mod) BeforeCommandExecute(ctx *statemachine.TransactionExecuteContext) error {
-	return m.runScript(ctx, m.cur.Before)
+	return m.runScript(ctx, m.script(ctx).Before)
 }
 func (m *mod) AfterCommandExecute(ctx *statemachine.TransactionExecuteContext) error {
-	return m.runScript(ctx, m.cur.After)
+	return m.runScript(ctx, m.script(ctx).After)
 }
 
 type cmd struct {
@@ -195,7 +206,7 @@ type cmd struct {
 func (c *cmd) ID() uint32   { return 0 }
 func (c *cmd) Name() string { return "run" }
 func (c *cmd) Execute(ctx *statemachine.TransactionExecuteContext) error {
-	return c.m.runScript(ctx, c.m.cur.Command)
+	return c.m.runScript(ctx, c.m.script(ctx).Command)
 }
 
 // ---- records
@@ -225,18 +236,22 @@ type dumpRec struct {
 }
 
 type stepRec struct {
-	T        string  `json:"t"` // block | revert | init
-	Height   int     `json:"h"`
-	Txs      []txRec `json:"txs,omitempty"`
-	Dry      bool    `json:"dry,omitempty"`
-	Expected string  `json:"exp"` // none | right | wrong
-	Last     int     `json:"last,omitempty"`
-	Res      string  `json:"res"` // ok | mismatch | nodiff | behind | conflict | err:<msg> | panic
-	Root     string  `json:"root,omitempty"`
-	RootRef  bool    `json:"rootref"` // returned root == SMT root of the dumped state built from scratch
-	TreeRef  bool    `json:"treeref"` // tree-state record's root == SMT root of the dumped state
-	Dump     dumpRec `json:"dump"`
-	Panic    string  `json:"panic,omitempty"`
+	T        string     `json:"t"` // block | revert | init
+	Height   int        `json:"h"`
+	Txs      []txRec    `json:"txs,omitempty"`
+	Txs2     []txRec    `json:"txs2,omitempty"` // gen: the selected transactions executed again as a block
+	SelOK    bool       `json:"selok,omitempty"`
+	Cands    []txScript `json:"cands,omitempty"` // gen: the candidate scripts in pool order (for replay)
+	Dry      bool       `json:"dry,omitempty"`
+	Mid      string     `json:"mid,omitempty"` // a dry-run / refused Commit in the middle of the block (same context keeps being used)
+	Expected string     `json:"exp"`           // none | right | wrong
+	Last     int        `json:"last,omitempty"`
+	Res      string     `json:"res"` // ok | mismatch | nodiff | behind | conflict | err:<msg> | panic
+	Root     string     `json:"root,omitempty"`
+	RootRef  bool       `json:"rootref"` // returned root == SMT root of the dumped state built from scratch
+	TreeRef  bool       `json:"treeref"` // tree-state record's root == SMT root of the dumped state
+	Dump     dumpRec    `json:"dump"`
+	Panic    string     `json:"panic,omitempty"`
 }
 
 type scnRec struct {
@@ -344,8 +359,8 @@ func guard(f func()) (p string) {
 	return ""
 }
 
-func (n *node) block(height int, txs []txScript, dry bool, expected string) stepRec {
-	st := stepRec{T: "block", Height: height, Dry: dry, Expected: expected}
+func (n *node) block(height int, txs []txScript, dry bool, expected string, mid string) stepRec {
+	st := stepRec{T: "block", Height: height, Dry: dry, Expected: expected, Mid: mid}
 	header := &blockchain.BlockHeader{Version: 2, Height: uint32(height), AggregateCommit: &blockchain.AggregateCommit{}}
 	r, err := n.h.InitStateMachine(&labi.InitStateMachineRequest{Header: header})
 	if err != nil {
@@ -364,7 +379,18 @@ func (n *node) block(height int, txs []txScript, dry bool, expected string) step
 		dryFlags = append(dryFlags, false)
 	}
 	txs = expanded
+	midAt := len(txs) / 2
 	for i := range txs {
+		if mid != "" && i == midAt {
+			// the context is asked for its root (dry run) or refused (wrong expected root) and then keeps being used
+			mreq := &labi.CommitRequest{ContextID: r.ContextID, StateRoot: n.roots[height-1], DryRun: mid == "dry"}
+			if mid == "wrong" {
+				mreq.ExpectedStateRoot = bytes.Repeat([]byte{0xab}, 32)
+			}
+			if p := guard(func() { _, _ = n.h.Commit(mreq) }); p != "" {
+				st.Panic = p
+			}
+		}
 		s := txs[i]
 		n.m.cur = &s
 		n.m.obs = []obsRec{}
@@ -381,26 +407,7 @@ func (n *node) block(height int, txs []txScript, dry bool, expected string) step
 				panic(err)
 			}
 			rec.Result = int(resp.Result)
-			for _, e := range resp.Events {
-				er := evRec{Data: toInts(e.Data), Index: int(e.Index), Height: int(e.Height), Name: -1, Topics: []int{}}
-				for j, nm := range eventNames {
-					if nm == e.Name {
-						er.Name = j
-					}
-				}
-				if e.Name == blockchain.EventNameDefault {
-					er.Name = 100
-				}
-				for j, tp := range e.Topics {
-					if j == 0 {
-						er.TxOK = bytes.Equal(tp, t.ID)
-						er.Topics = append(er.Topics, 0)
-					} else {
-						er.Topics = append(er.Topics, int(tp[0]))
-					}
-				}
-				rec.Events = append(rec.Events, er)
-			}
+			rec.Events = convEvents(resp.Events, t.ID)
 		})
 		rec.Obs = n.m.obs
 		st.Txs = append(st.Txs, rec)
@@ -534,6 +541,174 @@ func (n *node) init(last int, rootKind string) stepRec {
 	return st
 }
 
+func convEvents(es []*blockchain.Event, txID []byte) []evRec {
+	out := []evRec{}
+	for _, e := range es {
+		er := evRec{Data: toInts(e.Data), Index: int(e.Index), Height: int(e.Height), Name: -1, Topics: []int{}}
+		for j, nm := range eventNames {
+			if nm == e.Name {
+				er.Name = j
+			}
+		}
+		if e.Name == blockchain.EventNameDefault {
+			er.Name = 100
+		}
+		for j, tp := range e.Topics {
+			if j == 0 {
+				er.TxOK = bytes.Equal(tp, txID)
+				er.Topics = append(er.Topics, 0)
+			} else {
+				er.Topics = append(er.Topics, int(tp[0]))
+			}
+		}
+		out = append(out, er)
+	}
+	return out
+}
+
+// recABI records the ExecuteTransaction calls block generation makes
+type recABI struct {
+	*framework.ABIHandler
+	n       *node
+	scripts []txScript
+	calls   []txRec
+	ids     [][]byte
+}
+
+func (a *recABI) ExecuteTransaction(req *labi.ExecuteTransactionRequest) (*labi.ExecuteTransactionResponse, error) {
+	idx := int(req.Transaction.Params[0])
+	a.n.m.obs = []obsRec{}
+	resp, err := a.ABIHandler.ExecuteTransaction(req)
+	rec := txRec{S: a.scripts[idx], Events: []evRec{}}
+	if err == nil {
+		rec.Result = int(resp.Result)
+		rec.Events = convEvents(resp.Events, req.Transaction.ID)
+	} else {
+		rec.Panic = "error: " + err.Error()
+	}
+	rec.Obs = a.n.m.obs
+	a.calls = append(a.calls, rec)
+	a.ids = append(a.ids, req.Transaction.ID)
+	return resp, err
+}
+
+// gen: what block generation does with the application — one context, the candidate transactions executed in fee order by
+// generator.selectTransactionsByFee (invalid ones are skipped and the SAME context keeps being used), Commit{DryRun} for
+// the header's state root — followed by what every node does with the generated block: the selected transactions on a
+// fresh context and a Commit that expects the header's root.
+func (n *node) gen(height int, txs []txScript) stepRec {
+	st := stepRec{T: "gen", Height: height, Expected: "given", Cands: txs}
+	header := &blockchain.BlockHeader{Version: 2, Height: uint32(height), AggregateCommit: &blockchain.AggregateCommit{}}
+	r, err := n.h.InitStateMachine(&labi.InitStateMachineRequest{Header: header})
+	if err != nil {
+		panic(err)
+	}
+	n.m.scripts = map[int]*txScript{}
+	cands := []*blockchain.Transaction{}
+	for i := range txs {
+		sc := txs[i]
+		n.m.scripts[i] = &sc
+		command := "run"
+		if sc.Unknown {
+			command = "nope"
+		}
+		pk := make([]byte, 32)
+		pk[0] = byte(i + 1)
+		t := &blockchain.Transaction{Module: "m", Command: command, Params: []byte{byte(i)}, Nonce: 0, Fee: uint64(1000000 - 1000*i), SenderPublicKey: pk, Signatures: []codec.Hex{make([]byte, 64)}}
+		t.Init()
+		cands = append(cands, t)
+	}
+	wr := &recABI{ABIHandler: n.h, n: n, scripts: txs}
+	chain := blockchain.NewChain(&blockchain.ChainConfig{ChainID: []byte{0, 0, 0, 1}, MaxBlockCache: 10})
+	g := generator.NewGenerator(&generator.GeneratorParams{Chain: chain})
+	var sel []*blockchain.Transaction
+	st.Panic = guard(func() {
+		var e error
+		sel, e = g.VerifC15SelectTransactionsWith(wr, r.ContextID, &labi.Consensus{}, header, cands, 1<<20)
+		if e != nil {
+			panic(e)
+		}
+	})
+	st.Txs = wr.calls
+	var genRoot []byte
+	if st.Panic == "" {
+		st.Panic = guard(func() {
+			resp, e := n.h.Commit(&labi.CommitRequest{ContextID: r.ContextID, StateRoot: n.roots[height-1], DryRun: true})
+			if e != nil {
+				panic(e)
+			}
+			genRoot = resp.StateRoot
+		})
+	}
+	n.h.Clear(&labi.ClearRequest{})
+	// the selection must be the executed, not invalid transactions, in execution order
+	want := [][]byte{}
+	for i, c := range wr.calls {
+		if c.Result != int(labi.TxExecuteResultInvalid) && c.Panic == "" {
+			want = append(want, wr.ids[i])
+		}
+	}
+	st.SelOK = len(want) == len(sel)
+	for i := range sel {
+		if st.SelOK && !bytes.Equal(sel[i].ID, want[i]) {
+			st.SelOK = false
+		}
+	}
+	if st.Panic != "" {
+		st.Res = "panic"
+		st.Dump, _ = n.dump()
+		return st
+	}
+	// the block on a fresh context
+	r2, err := n.h.InitStateMachine(&labi.InitStateMachineRequest{Header: header})
+	if err != nil {
+		panic(err)
+	}
+	for _, t := range sel {
+		idx := int(t.Params[0])
+		n.m.obs = []obsRec{}
+		rec := txRec{S: txs[idx], Events: []evRec{}}
+		rec.Panic = guard(func() {
+			resp, e := n.h.ExecuteTransaction(&labi.ExecuteTransactionRequest{ContextID: r2.ContextID, Transaction: t, Header: header, Consensus: &labi.Consensus{}})
+			if e != nil {
+				panic(e)
+			}
+			rec.Result = int(resp.Result)
+			rec.Events = convEvents(resp.Events, t.ID)
+		})
+		rec.Obs = n.m.obs
+		st.Txs2 = append(st.Txs2, rec)
+	}
+	var resp *labi.CommitResponse
+	st.Panic = guard(func() {
+		var e error
+		resp, e = n.h.Commit(&labi.CommitRequest{ContextID: r2.ContextID, StateRoot: n.roots[height-1], ExpectedStateRoot: genRoot})
+		switch {
+		case e == nil:
+			st.Res = "ok"
+			st.Root = hex.EncodeToString(resp.StateRoot)
+		case strings.Contains(e.Error(), "does not match with expected state root"):
+			st.Res = "mismatch"
+		default:
+			st.Res = "err:" + e.Error()
+		}
+	})
+	if st.Panic != "" {
+		st.Res = "panic"
+	}
+	n.h.Clear(&labi.ClearRequest{})
+	n.m.scripts = nil
+	var ref []byte
+	st.Dump, ref = n.dump()
+	if st.Res == "ok" {
+		n.roots[height] = resp.StateRoot
+		n.tip = height
+		st.RootRef = bytes.Equal(resp.StateRoot, ref)
+	}
+	st.TreeRef = st.Dump.TRoot == hex.EncodeToString(ref)
+	return st
+}
+
 // ---- generators
 
 func randScript(r *hx.Rng, n int, failP int) script {
@@ -627,7 +802,9 @@ func main() {
 							txs = append(txs, t.S)
 						}
 					}
-					outRec.Steps = append(outRec.Steps, n.block(s.Height, txs, s.Dry, s.Expected))
+					outRec.Steps = append(outRec.Steps, n.block(s.Height, txs, s.Dry, s.Expected, s.Mid))
+				case "gen":
+					outRec.Steps = append(outRec.Steps, n.gen(s.Height, s.Cands))
 				case "revert":
 					outRec.Steps = append(outRec.Steps, n.revert(s.Expected))
 				case "init":
@@ -644,13 +821,39 @@ func main() {
 		for j := 0; j < *nsteps; j++ {
 			x := r.Intn(20)
 			switch {
+			case x < 3 && n.tip > 0:
+				txs := []txScript{}
+				for k := 1 + r.Intn(4); k >= 0; k-- {
+					t := randTx(r)
+					switch r.Intn(5) {
+					case 0: // a hook that writes and then fails: the transaction is invalid
+						t.Before = randScript(r, 1+r.Intn(3), 100)
+					case 1:
+						t.After = randScript(r, 1+r.Intn(3), 100)
+					}
+					// snapshot ids of the context are relative to its history (the generating context has executed the
+					// skipped transactions too): a script may only restore what it took itself, so the blind
+					// context-level restores of the random scripts are left out here
+					for _, sc := range []*script{&t.Before, &t.Command, &t.After} {
+						kept := []act{}
+						for _, a := range sc.Acts {
+							if !(a.Op == "restore" && a.View == 0) {
+								kept = append(kept, a)
+							}
+						}
+						sc.Acts = kept
+					}
+					txs = append(txs, t)
+				}
+				rec.Steps = append(rec.Steps, n.gen(n.tip+1, txs))
 			case x < 12 || n.tip == 0:
 				txs := []txScript{}
 				for k := r.Intn(4); k >= 0; k-- {
 					txs = append(txs, randTx(r))
 				}
 				exp := []string{"none", "none", "right", "wrong"}[r.Intn(4)]
-				rec.Steps = append(rec.Steps, n.block(n.tip+1, txs, r.Intn(8) == 0, exp))
+				mid := []string{"", "", "dry", "wrong"}[r.Intn(4)]
+				rec.Steps = append(rec.Steps, n.block(n.tip+1, txs, r.Intn(8) == 0, exp, mid))
 			case x < 16:
 				rec.Steps = append(rec.Steps, n.revert([]string{"none", "right", "right", "wrong"}[r.Intn(4)]))
 			default:
